@@ -27,6 +27,30 @@ Tested part (numerical tests, never counted as theorems):
              of the MRO, and the modules defining them) carries state besides its dataclass fields - caches,
              attribute writes outside the constructor, mutable class / module attributes; and no code
              reachable from mv / as_matrix / __call__ converts a traced array field at Python level.
+  ambient    every route again with the AMBIENT furax configuration (the context variable behind Config) different at
+             trace time and at call time: jit over a closure / jit taking the operator as argument / round trip traced
+             or made INSIDE a `with Config(...)` block and called outside, and traced outside and called inside; eager
+             inside and outside.  An operator captures its configuration when it is built; nothing may depend on what
+             is active later.  Operators that hold a configuration (InverseOperator alone, preconditioned, with an
+             initial guess, throwing, inside compositions / sums / block diagonals, nested with two configurations;
+             one CG step of the three a 3x3 system needs, so that solver, preconditioner and initial guess all show in
+             the values) get one variant per ConfigState field and alternative value plus the all-fields variant (fail
+             closed on a ConfigState field without alternative); recording solver callbacks tell which configuration's
+             callback ran.  All other instances get the all-fields variant.
+  pairs      (`pairs` cases; coverage fail closed against the regenerated field table) for EVERY field of the jit cache
+             key of every concrete operator class - static fields, every field of the record stored in a static field
+             (ConfigState: solver, solver_throw, solver_options, solver_callback), Python leaves of dynamic fields (axes,
+             fft_size, ints / slices of an index tuple) and the container structure of operand fields - two operators
+             that differ EXACTLY there (verified by a harness-side field-by-field diff) are passed one after the other
+             to the SAME equinox.filter_jit function and to the same jax.jit(static_argnums) function: each must give
+             its own eager result (values, shapes, dtypes, callbacks), and the static parts (treedef + non-array leaves)
+             must compare unequal, also after a round trip.  A result that equals the OTHER operator's eager result is
+             reported as jit-cache conflation.
+  static+    two more scans of tools/translate/pytreereg.py: no method of an operator class (nor module-level function
+             of their modules) reads ambient state (Config, a ContextVar, os.environ) outside constructors; every
+             dataclass field of every operator class and of the records stored in static fields takes part in the
+             equality in use (compare=True; a hand-written __eq__ only as one and-chain reading self.f and other.f for
+             every field) - regenerated as gen_field_compare / gen_static_records and decided in Props/C18.v.
 Oracle (independent of the Coq model; the reference is eager application of the same instance, and for
 as_matrix NumPy's float64 product of the matrix with the flattened input): the round-tripped object has the
 same attributes / structures / action; every route in every order agrees with eager.
@@ -943,10 +967,9 @@ def run_pairs(case, workdir: Path):
                 fj = eqx.filter_jit(lambda o, v: o.mv(v))
                 for i, w in enumerate(order):
                     route(f'filter-jit[{order}]/{i + 1}-{w}', w, fj)
-                if True:
-                    sj = static_argnums_jit()
-                    for i, w in enumerate(order[:2]):
-                        route(f'static-argnums-jit[{order[:2]}]/{i + 1}-{w}', w, sj)
+                sj = static_argnums_jit()
+                for i, w in enumerate(order[:2]):
+                    route(f'static-argnums-jit[{order[:2]}]/{i + 1}-{w}', w, sj)
     return out
 
 
@@ -1587,6 +1610,8 @@ def ambient_sequences(case, out, route, fresh, builder, op, x, mask):
             if tag == 'all-fields':
                 route(f'{p}/B6-new-jit-closure-traced-inside', lambda: jax.jit(lambda v: ob(v))(x))
                 route(f'{p}/B7-roundtrip-made-inside-jit-inside', lambda: jax.jit(lambda v: rt(ob).mv(v))(x))
+                if case['inst'] not in AS_MATRIX_SKIP:
+                    route(f'{p}/B8-as-matrix-inside', lambda: ob, obs=lambda o: as_matrix_obs(o, x))
 
 
 def field_facts(op):
@@ -1821,6 +1846,13 @@ class Check(PropertyCheck):
         'with jax.tree_util.tree_flatten_with_path on every instance (partition cases)',
         'correspondence harness harness/c18.py (case generators, the two printers of one case description, the '
         'worker subprocess protocol)',
+        'ambient-configuration sequences and one-field pairs: implementation-side (the model has no notion of tracing or of a '
+        'jit cache); reference = eager application of the same operator under the default ambient configuration; that a pair '
+        'differs exactly in the declared field is established by the harness-side diff key_diff / same_static (never through the '
+        '__eq__ of a furax dataclass); the equality of third-party objects stored in the configuration (lineax solvers: equinox '
+        'tree equality) is not scanned, only exercised (pairs inverse/solver-*)',
+        'Part C of the model (rec_eq) is the dataclass-generated __eq__ / an and-chain over the fields; that JAX compares the aux '
+        'data of two treedefs with == and that equinox stores the static field values there is tested by the pairs, not proved',
         'route sequences, parameter variants and the static scans (hidden state, Python-level conversions) are '
         'implementation-side checks: the Coq model has no notion of tracing, so their reference is eager application of the '
         'same instance (and NumPy float64 matrix-vector product for as_matrix); the static scans are syntactic (class dicts, '
@@ -2022,7 +2054,12 @@ class Check(PropertyCheck):
             'equal objects (eager-first; jit-first then eager, second jit, filter_jit, round trip; eval_shape-first; '
             'as_matrix-first; jit-as-argument-first; eager again and a second jit on the first object), traced-first being the '
             'first use in the process for the x64-on/f64 cases. static: scans of the class dicts / method ASTs for state '
-            'besides the dataclass fields and for Python-level conversions of traced fields. '
+            'besides the dataclass fields, for Python-level conversions of traced fields, for reads of ambient state outside '
+            'constructors and for fields left out of the equality of the static part. ambient (inside every routes case): the '
+            'routes with the active furax configuration different at trace time and at call time (traced inside a Config block / '
+            'called outside and vice versa; per ConfigState field and all fields for the operators that hold a configuration). '
+            'pairs: for every field of the jit cache key of every concrete class (coverage fail closed) two operators differing '
+            'exactly there x {filter_jit a,b,a,b (and b,a), jax.jit with static treedef and leaves, jit over closures} x {x64 off/f32, x64 on/f64}. '
             'Distinct by canonical JSON of the case.'
         )
 
@@ -2057,9 +2094,12 @@ class Check(PropertyCheck):
         for i, c in enumerate(other):
             plan.setdefault((not mode, i % self.N_OTHER_MODE), []).append(c)
         same = [c for c in self._cases if bool(c.get('x64', False)) == mode and c['kind'] in ('routes', 'pairs')]
+        j = 0
         for i, c in enumerate(same):
-            if self.N_SAME_MODE and i % (self.N_SAME_MODE + 1):
-                plan.setdefault((mode, i % (self.N_SAME_MODE + 1)), []).append(c)
+            # this process also runs the reg / coverage / static cases: it keeps one case in 2 N + 2
+            if self.N_SAME_MODE and i % (2 * self.N_SAME_MODE + 2):
+                plan.setdefault((mode, 1 + j % self.N_SAME_MODE), []).append(c)
+                j += 1
         self._assigned = {lib.case_id(c) for todo in plan.values() for c in todo}
 
         def go(slot, todo):
